@@ -257,14 +257,15 @@ def match_known(v: Violation, known: list[dict[str, Any]]) -> dict[str, Any] | N
 
 
 def write_replay(v: Violation) -> str:
-    os.makedirs(os.path.join(ROOT, 'replays'), exist_ok=True)
+    OUT = os.environ.get('KV_OUT') or ROOT   # scratch trials (KV_REPO=<worktree>) write elsewhere
+    os.makedirs(os.path.join(OUT, 'replays'), exist_ok=True)
     h = hashlib.sha256(v.key().encode()).hexdigest()[:10]
-    path = os.path.join(ROOT, 'replays', f'{v.prop}-{h}.json')
+    path = os.path.join(OUT, 'replays', f'{v.prop}-{h}.json')
     with open(path, 'w') as f:
         json.dump(dict(property=v.prop, kind=v.kind, message=v.message, signature=_jsonable(v.signature),
                        scenario=v.scenario, params=_jsonable(v.params), labels=v.labels,
                        deviations=v.deviations, trace=_jsonable(v.trace)), f, indent=1, default=repr)
-    test = os.path.join(ROOT, 'replays', f'{v.prop}-{h}_test.py')
+    test = os.path.join(OUT, 'replays', f'{v.prop}-{h}_test.py')
     with open(test, 'w') as f:
         f.write(f'''"""Replays one recorded execution without the explorer. Run: /verif/run replay {path}"""
 import json, subprocess, sys
@@ -303,8 +304,9 @@ def write_evidence(res: CheckResult, wall: float, new_violations: int) -> str:
         'coverage': cov, 'assumptions': res.assumptions, 'wall_s': round(wall, 3),
         'violations': new_violations,
     }
-    os.makedirs(os.path.join(ROOT, 'evidence'), exist_ok=True)
-    path = os.path.join(ROOT, 'evidence', f'{res.prop}.json')
+    OUT = os.environ.get('KV_OUT') or ROOT
+    os.makedirs(os.path.join(OUT, 'evidence'), exist_ok=True)
+    path = os.path.join(OUT, 'evidence', f'{res.prop}.json')
     with open(path, 'w') as f:
         json.dump(ev, f, indent=1, default=repr)
     return path
